@@ -1,0 +1,100 @@
+//go:build verif
+
+package sniproxy
+
+import (
+	"fmt"
+	"sync/atomic"
+	"unsafe"
+)
+
+// VerifEvent describes one schedule/trace point reached by the code.
+type VerifEvent struct {
+	Point string // e.g. "serve.take"
+	Tag   string // identifies the call (derived from its request)
+	Typ   uint8
+	ID    uint64
+	Name  string
+	Ptr   uintptr // identity of an endpoint client
+	Found bool
+}
+
+var verifHook atomic.Value // of func(VerifEvent)
+
+// VerifSetHook installs f (nil removes it).  f may block to force a schedule.
+func VerifSetHook(f func(VerifEvent)) {
+	if f == nil {
+		f = func(VerifEvent) {}
+	}
+	verifHook.Store(f)
+}
+
+func verifTagOf(req interface{}) string {
+	switch m := req.(type) {
+	case nil:
+		return "shutdown"
+	case *helloRequest:
+		return "h:" + m.msg
+	case *helloResponse:
+		return "h:" + m.msg
+	case *dialRequest:
+		return "dial"
+	case *dialSideRequest:
+		return fmt.Sprintf("ds:%d", m.session)
+	case *dialSide2Request:
+		return fmt.Sprintf("ds2:%d", m.session)
+	case *readRequest:
+		return fmt.Sprintf("r:%d", m.session)
+	case *writeRequest:
+		return fmt.Sprintf("w:%d:%d", m.session, len(m.bytes))
+	case *closeRequest:
+		return fmt.Sprintf("c:%d", m.session)
+	}
+	return fmt.Sprintf("%T", req)
+}
+
+func verifPoint(point string, x interface{}) {
+	f, _ := verifHook.Load().(func(VerifEvent))
+	if f == nil {
+		return
+	}
+	ev := VerifEvent{Point: point}
+	switch v := x.(type) {
+	case *transportCall:
+		ev.Typ = v.typ
+		if v.req == nil {
+			ev.Tag = "shutdown"
+		} else {
+			ev.Tag = verifTagOf(v.req)
+		}
+	case *callExchange:
+		if v != nil {
+			ev.Found = true
+			ev.Typ, ev.ID = v.typ, v.id
+			if v.req == nil {
+				ev.Tag = "shutdown"
+			} else {
+				ev.Tag = verifTagOf(v.req)
+			}
+		}
+	case *pendingFetch:
+		ev.ID = v.id
+	case uint64:
+		ev.ID = v
+	case string:
+		ev.Name = v
+	}
+	f(ev)
+}
+
+func verifPointN(point, name string, x interface{}) {
+	f, _ := verifHook.Load().(func(VerifEvent))
+	if f == nil {
+		return
+	}
+	ev := VerifEvent{Point: point, Name: name}
+	if ep, ok := x.(*endpointClient); ok && ep != nil {
+		ev.Ptr = uintptr(unsafe.Pointer(ep))
+	}
+	f(ev)
+}
